@@ -268,7 +268,7 @@ def enum_basis(tier):
             full = fam in ('triclinic', 'monoclinic', 'rhombohedral', 'hexagonal')
             mode = '4' if fam == 'hexagonal' else '3'
             for bi, blk in enumerate(_blocks(P, 3)):
-                cuts = 'abc' if full else ('ca' if bi % 2 else 'cb')
+                cuts = 'abc' if full else 'cab'[bi % 3]
                 cases.append({'cell': cell, 'planes': blk, 'cuts': cuts, 'hex': mode})
         # sampled: centred settings, the other Miller-Bravais modes, a rigidly rotated cell
         for j, (fam, s) in enumerate(CENTRED[:5]):
@@ -299,6 +299,11 @@ def enum_basis(tier):
         for mode in ('3to4', '4to3'):
             for bi, blk in enumerate(_blocks(P3, 3)):
                 cases.append({'cell': hexc, 'planes': blk, 'cuts': 'cab'[bi % 3], 'hex': mode})
+    # fixed permutation of the list: every shard (cases[shard::n]) and every prefix of a shard then holds all cells and
+    # settings in proportion, so a run cut short by the soft wall budget is still representative and shards cost the same
+    N = len(cases)
+    step = next(q for q in (7919, 7907, 7901, 7883, 7879, 7877) if math.gcd(q, N) == 1)
+    cases = [cases[(i * step) % N] for i in range(N)]
     # development aid only: VERIF_SCALE < 1 thins the enumeration (the clause is exhaustive at scale >= 1)
     scale = float(os.environ.get('VERIF_SCALE', '1'))
     if scale < 1:
@@ -1139,7 +1144,7 @@ def oracle_fault(case):
 
 CLAUSES = [
     Clause('basis', oracle_basis, enumerate=enum_basis, max_share={'refusal': 0.08},
-           min_share={'nt': 0.5, 'centred': 0.08, 'hex_4': 0.05},
+           min_share={'nt': 0.4, 'centred': 0.06, 'hex_4': 0.04},
            desc='free_surface_basis on every plane up to the index bound x cutboxvector in a generic cell per family, centred '
                 'settings, Miller-Bravais: integer, right-handed, zone law exact, out-of-plane row on the normal side, normal = +g'),
     Clause('basis_random', oracle_basis_random, basis_random_cases, quick=640, thorough=12000,
